@@ -121,7 +121,7 @@ def build(case, inp):
     else:
         d["codes"] = inp.codes("k", N, G)
     if case["func"] != "size":
-        d["values"] = inp.values("v", N, dt)
+        d["values"] = inp.values("v", N, dt, sum_safe=("squares" if case["func"] == "sum_squares" else case["func"] in ("sum", "mean")))
     m = case["mask"]
     if m["kind"] == "bool_sym":
         d["mask"] = inp.bools("m", N)
